@@ -555,7 +555,11 @@ fn c07(r: &Runner) {
         for len in 0..=nl + 2 {
             let al: &[u64] = if len <= 3 { A8 } else if len <= 5 { A5 } else { A3 };
             let mut cur: Vec<Limbs> = vec![vec![]];
-            for _ in 0..len {
+            if len > 7 {
+                // long slices: run shapes instead of the full product
+                cur = runs(64 * len, &[0, 1, 1 << 63, u64::MAX]);
+            }
+            for _ in 0..(if len > 7 { 0 } else { len }) {
                 let mut nx = vec![];
                 for v in &cur {
                     for &a in al {
@@ -592,7 +596,7 @@ fn c07(r: &Runner) {
             }
         });
     }
-    if r.is_thorough() {
+    if r.is_thorough() && !SWEEP {
         for bits in [7usize, 31, 32, 33] {
             r.universe(&format!("ALL 2^32 u32 and i32 values -> U{bits}"), bits, 1 << 16, |i, l| {
                 for lo in 0..(1u128 << 16) {
